@@ -14,7 +14,13 @@ func (s *syntaxSlicePositiveStepSubscript) getIndexes(srcLength int) []int {
 
 	index, result := 0, make([]int, srcLength)
 	if s.step.number > 0 {
-		for i := loopStart; i < loopEnd; i += s.step.number {
+		step := s.step.number
+		if step > srcLength {
+			// Any step beyond the length selects only the first index;
+			// clamping keeps i += step from overflowing.
+			step = srcLength
+		}
+		for i := loopStart; i < loopEnd; i += step {
 			result[index] = i
 			index++
 		}
